@@ -35,6 +35,7 @@ type MassDBV1 struct {
 	plotting   int32 // atomic
 	stopping   int32 // atomic, stopPlotCh of the running plot has been closed
 	stopPlotCh chan struct{}
+	plotLock   sync.Mutex // start of a plot (flag, stop channel, wait group) and a stop request exclude each other
 	wg         sync.WaitGroup
 }
 
@@ -59,12 +60,19 @@ func (mdb *MassDBV1) Close() error {
 func (mdb *MassDBV1) Plot() chan error {
 	result := make(chan error, 1)
 
+	// the plotting flag becomes visible together with the stop channel and the wait group entry:
+	// a StopPlot that sees the flag must find a channel to close and a plot to wait for
+	mdb.plotLock.Lock()
 	if !atomic.CompareAndSwapInt32(&mdb.plotting, 0, 1) {
+		mdb.plotLock.Unlock()
 		result <- ErrAlreadyPlotting
 		return result
 	}
 
 	if mdb.HashMapA == nil {
+		// already plotted: nothing is running
+		atomic.StoreInt32(&mdb.plotting, 0)
+		mdb.plotLock.Unlock()
 		result <- nil
 		return result
 	}
@@ -72,6 +80,7 @@ func (mdb *MassDBV1) Plot() chan error {
 	mdb.stopPlotCh = make(chan struct{})
 	atomic.StoreInt32(&mdb.stopping, 0)
 	mdb.wg.Add(1)
+	mdb.plotLock.Unlock()
 	go mdb.executePlot(result)
 
 	return result
@@ -81,17 +90,20 @@ func (mdb *MassDBV1) Plot() chan error {
 func (mdb *MassDBV1) StopPlot() chan error {
 	result := make(chan error, 1)
 
+	mdb.plotLock.Lock()
 	if atomic.LoadInt32(&mdb.plotting) == 0 {
+		mdb.plotLock.Unlock()
 		result <- nil
 		return result
 	}
+	// StopPlot may be called more than once for the same plot (a workspace stop and the
+	// plotter's monitor on keeper stop): only the first call closes the channel
+	if atomic.CompareAndSwapInt32(&mdb.stopping, 0, 1) {
+		close(mdb.stopPlotCh)
+	}
+	mdb.plotLock.Unlock()
 
 	go func() {
-		// StopPlot may be called more than once for the same plot (a workspace stop and the
-		// plotter's monitor on keeper stop): only the first call closes the channel
-		if atomic.CompareAndSwapInt32(&mdb.stopping, 0, 1) {
-			close(mdb.stopPlotCh)
-		}
 		mdb.wg.Wait()
 		result <- nil
 	}()
